@@ -266,7 +266,9 @@ package dotgit
 // capacity, so that a caller appending to it (ObjectStorage.HashesWithPrefix
 // adds the packed matches) gets a new backing array instead of overwriting the
 // entries that follow the window in the cache (property C18: an object that
-// was written stays visible in listings and prefix searches).
+// was written stays visible in listings and prefix searches). A prefix is
+// searched for whenever it is no longer than an id of the repository's object
+// format -- 32 bytes in a SHA-256 repository, where a full id is a prefix too.
 //gvc:func (*DotGit).ObjectsWithPrefix
 //gvc:  props C18
 //gvc:  theory int
@@ -274,6 +276,7 @@ package dotgit
 //gvc:  opt frame args
 //gvc:  results hashes err
 //gvc:  ensures tight: err == nil && old(d.options.ExclusiveAccess) && len(prefix) >= 1 && len(hashes) > 0 ==> cap(hashes) == len(hashes)
+//gvc:  ensures searched: err == nil && !old(d.options.ExclusiveAccess) && len(prefix) >= 1 && len(prefix) <= ite(bytes_eq(d.options.ObjectFormat, "sha256"), 32, 20) ==> calls("ForEachObjectHash") == 1
 //gvc:end
 
 // The pack-side twin of the loose-object announcement (property C18): a pack
